@@ -664,16 +664,32 @@ impl NNum {
         match self {
             NNum::Int(a) => NInt::hash(&a, state),
             NNum::Rational(r) => {
-                // TODO: should we make rationals consistent with floats?
-                BigInt::hash(r.numer(), state);
-                if !r.denom().is_one() {
-                    BigInt::hash(r.denom(), state);
+                // equal numbers must hash equally whatever their level: an integral rational
+                // hashes like that integer, and a fraction that is exactly some float like that float
+                if r.denom().is_one() {
+                    NInt::hash(&NInt::Big(r.numer().clone()), state)
+                } else {
+                    match r.to_f64() {
+                        Some(f)
+                            if f.is_finite()
+                                && BigRational::from_float(f).as_ref() == Some(&**r) =>
+                        {
+                            consistent_hash_f64(f, state)
+                        }
+                        _ => {
+                            BigInt::hash(r.numer(), state);
+                            BigInt::hash(r.denom(), state);
+                        }
+                    }
                 }
             }
             NNum::Float(f) => consistent_hash_f64(*f, state),
             NNum::Complex(z) => {
+                // a complex number with zero imaginary part equals its real part
                 consistent_hash_f64(z.re, state);
-                consistent_hash_f64(z.im, state);
+                if z.im != 0.0 {
+                    consistent_hash_f64(z.im, state);
+                }
             }
         }
     }
